@@ -1,5 +1,5 @@
 (* C04/Properties.v — property theorems only; each closed by a lemma of C04/Proofs.v. *)
-From Relic Require Import Base.Prelude Generated.C04_gen C04.Model C04.Proofs.
+From Relic Require Import Base.Prelude Generated.C04_gen C04.Model C04.Proofs C04.History C04.HistoryProofs.
 
 (* a token is touched only for a recognised caller entitled to the key the name resolves to (one alias hop),
    and the token touched is that key's token *)
@@ -62,4 +62,104 @@ Example alias_and_roles :
   handle cf (rq 2 [mkCert 100 0]) = Touch 7 2 /\ handle cf (rq 2 [mkCert 101 5]) = Status 403 /\
   handle cf (rq 3 [mkCert 100 0]) = Status 403 /\ handle cf (rq 4 [mkCert 100 0]) = Status 403 /\
   handle cf (rq 1 [mkCert 102 0]) = Status 401 /\ list_keys ks (UCert [10]) = [1; 2].
+Proof. vm_compute. repeat split. Qed.
+
+(* ==================================================================== request histories on one long-lived server *)
+
+(* every request's outcome (status / token touched / listing, and the identity the authenticator reports) equals the
+   outcome the same request has on a FRESH server — for every configuration, every starting state and every sequence *)
+Theorem history_independent : forall cf rqs st,
+  hrun cf st rqs = map (fun rq => fst (hstep cf fresh rq)) rqs.
+Proof. exact C04.HistoryProofs.history_independent. Qed.
+
+(* ... because Authenticate reads no state that outlives a request (holds for ANY action table and ANY writes) *)
+Theorem authenticate_reads_no_history : forall stores action cls st st' now chain,
+  fst (hauth_g [] stores action cls st now chain) = fst (hauth_g [] stores action cls st' now chain).
+Proof. exact C04.HistoryProofs.hauth_g_stateless. Qed.
+Theorem authenticate_keeps_no_history : forall cls st now chain, snd (hauth cls st now chain) = st.
+Proof. exact C04.HistoryProofs.hauth_state_unchanged. Qed.
+
+(* Authenticate = the specification of "recognised": Ok with the roles of an entry that is keyed by the certificate's
+   public key or whose CA pool verifies the presented chain now for client authentication; otherwise 401 *)
+Theorem authenticate_spec : forall cls st now chain,
+  match fst (hauth cls st now chain) with
+  | Ok i => exists cl, In cl cls /\ spec_recognises cl now chain = true /\ id_roles i = xc_roles cl /\ id_name i = xc_nick cl
+  | Err e => e = 401 /\ forall cl, In cl cls -> spec_recognises cl now chain = false
+  | Panic _ => False
+  end.
+Proof. exact C04.HistoryProofs.hauth_result. Qed.
+Theorem authenticate_complete : forall cls st now chain cl,
+  In cl cls -> spec_recognises cl now chain = true -> exists i, fst (hauth cls st now chain) = Ok i.
+Proof. exact C04.HistoryProofs.hauth_complete. Qed.
+Theorem match_is_path_validation : forall roots now leaf inter,
+  fst (match_model roots now (leaf :: inter)) =
+  (match roots with [] => false | _ => true end && verify_spec roots inter now [EKU_CLIENT] leaf).
+Proof. exact C04.HistoryProofs.match_model_spec. Qed.
+
+(* whatever the server has seen before, a certificate that nobody recognises at the time of the request gets 401 *)
+Theorem history_unrecognised_refused : forall cf rqs st i rq,
+  nth_error rqs i = Some rq ->
+  (forall cl, In cl (hc_clients cf) -> spec_recognises cl (h_now rq) (h_chain rq) = false) ->
+  exists r, nth_error (hrun cf st rqs) i = Some (Status 401, r).
+Proof. exact C04.HistoryProofs.history_unrecognised_refused. Qed.
+
+(* every response of every history satisfies the per-request specification *)
+Theorem history_spec : forall cf rqs st i rq,
+  nth_error rqs i = Some rq ->
+  exists o r, nth_error (hrun cf st rqs) i = Some (o, r) /\ spec_response cf rq o.
+Proof. exact C04.HistoryProofs.history_spec. Qed.
+
+(* a token is touched in a history only for a caller recognised at that moment and entitled to the resolved key *)
+Theorem history_authz_sound : forall cf rqs st i t k r,
+  nth_error (hrun cf st rqs) i = Some (Touch t k, r) ->
+  exists rq cl, nth_error rqs i = Some rq /\ In cl (hc_clients cf) /\
+    spec_recognises cl (h_now rq) (h_chain rq) = true /\
+    exists rn kc, resolve1 (cf_keys (hc_base cf)) (rq_key (h_base rq)) = Some (rn, kc) /\
+                  allowed (UCert (xc_roles cl)) rn kc = true /\
+                  t = k_token kc /\ t <> 0 /\ mem t (cf_tokens (hc_base cf)) = true /\
+                  (k = rq_key (h_base rq) \/ k = rn).
+Proof. exact C04.HistoryProofs.history_authz_sound. Qed.
+
+(* the mutable state reachable from request handling in the anchored packages is exactly the reviewed list, the
+   authenticator mentions no receiver field but its configuration, it neither reads nor writes remembered verdicts *)
+Theorem state_inventory_reviewed :
+  c04_package_vars = reviewed_package_vars /\ c04_state_fields = reviewed_state_fields /\
+  c04_state_writes = reviewed_state_writes /\ auth_receiver_fields = reviewed_receiver_fields.
+Proof. exact C04.HistoryProofs.inventory_reviewed. Qed.
+Theorem authenticator_has_no_memory : auth_memo_loads = [] /\ auth_memo_stores = [].
+Proof. exact (conj C04.HistoryProofs.gen_no_memo_loads C04.HistoryProofs.gen_no_memo_stores). Qed.
+Theorem client_loop_takes_exactly_matches : forall m e,
+  bit (auth_loop_action m e) 1 = m /\ bit (auth_loop_action m e) 2 = m /\ bit (auth_loop_action m e) 8 = m /\
+  bit (auth_loop_action m e) 16 = false /\ bit (auth_loop_action m e) 32 = false.
+Proof. exact C04.HistoryProofs.gen_loop_action. Qed.
+(* Authenticate: certificate-required refusal, lookup by fingerprint, then the client loop asking every entry about the
+   whole presented chain, then the refusal, then the user — in this order, with nothing else in the loop *)
+Theorem authenticate_stage_order : auth_match_arg = 1 /\ auth_loop_extra_stmts = 0 /\ auth_leaf_index = 0 /\ auth_first_lookup_key = 1 /\
+  auth_stage_order = [6; 0; 1; 2; 3; 5].
+Proof. exact C04.HistoryProofs.gen_loop_shape. Qed.
+Theorem fingerprint_is_public_key_digest : forall c, fingerprint c = x_key c /\ fp_hash = 256 /\ fp_encoding = 1.
+Proof. exact C04.HistoryProofs.gen_fingerprint_is_key. Qed.
+(* every key-bearing route sits behind the authentication middleware, which ends the request when Authenticate fails *)
+Theorem routes_behind_authentication :
+  handler_routes = reviewed_routes /\ handler_middleware = reviewed_middleware /\
+  mw_call_order = [0; 1; 2; 3] /\ mw_first_is_authenticate = true /\ mw_err_returns = true.
+Proof. exact C04.HistoryProofs.routes_reviewed. Qed.
+
+(* non-vacuity: a history in which a CA-issued certificate is served and the same public key under a self-signed and
+   under an expired certificate is refused before AND after it; and the remembered-by-public-key authenticator, run
+   through the same definitions, serves both after the valid request (so the theorems above do exclude something) *)
+Example history_same_key_other_certificates :
+  map fst (hrun ex_cf fresh [ex_rq ex_selfsigned; ex_rq ex_good; ex_rq ex_selfsigned; ex_rq ex_expired])
+  = [Status 401; Touch 7 1; Status 401; Status 401].
+Proof. exact C04.HistoryProofs.real_authenticator_on_the_same_history. Qed.
+Example remembering_by_public_key_is_refuted :
+  map fst (hrun_g [1] [1] memo_action ex_cf fresh [ex_rq ex_selfsigned; ex_rq ex_good; ex_rq ex_selfsigned; ex_rq ex_expired])
+  = [Status 401; Touch 7 1; Touch 7 1; Touch 7 1].
+Proof. exact C04.HistoryProofs.memo_by_public_key_refuted. Qed.
+Example recognition_is_satisfiable :
+  spec_recognises (mkXC 900 [50] [10] 5) 1000 [ex_good] = true /\ spec_recognises (mkXC 900 [50] [10] 5) 1000 [ex_selfsigned] = false /\
+  spec_recognises (mkXC 900 [50] [10] 5) 1000 [ex_expired] = false /\ spec_recognises (mkXC 77 [] [10] 5) 1000 [ex_selfsigned] = true /\
+  (* through an intermediate presented by the peer, and not without it *)
+  spec_recognises (mkXC 900 [50] [10] 5) 1000 [mkX 105 78 1 60 0 2000 [] false; mkX 60 61 2 50 0 2000 [] true] = true /\
+  spec_recognises (mkXC 900 [50] [10] 5) 1000 [mkX 105 78 1 60 0 2000 [] false] = false.
 Proof. vm_compute. repeat split. Qed.
